@@ -821,15 +821,23 @@ func e10Case(kind string, seed uint64, n int) Case {
 			return
 		}
 		core.Barrier()
-		if ji, err := g.mkJoin(); err == nil {
-			// (a join over a stopped destination may also be returned, already done)
-			if !waitCh(ji.done, virtBound) {
-				r.V("C09", "join-zombie", "join %s created over a stopped destination controller never becomes done", kind)
+		beforeFailed := kit.CensusKeys(kit.Census())
+		for attempt := 0; attempt < 3; attempt++ {
+			if ji, err := g.mkJoin(); err == nil {
+				// (a join over a stopped destination may also be returned, already done)
+				if !waitCh(ji.done, virtBound) {
+					r.V("C09", "join-zombie", "join %s created over a stopped destination controller never becomes done", kind)
+				}
+			} else {
+				r.Add("failed-join-creations", 1)
 			}
-		} else {
-			r.Add("failed-join-creations", 1)
 		}
 		core.Barrier()
+		// whatever a failed creation had already started is stopped again: the other
+		// controllers keep running, and nothing new is running beside them
+		if afterFailed := kit.CensusKeys(kit.Census()); !equalStrings(beforeFailed, afterFailed) {
+			r.V("C09", "join-leaks-goroutines", "three attempts to create the %s join over a stopped destination controller: the library goroutine census grew from %d to %d although nothing was handed to the caller; extra: %v", kind, len(beforeFailed), len(afterFailed), diffStrings(afterFailed, beforeFailed))
+		}
 		for i, dn := range g.basesDone {
 			if i != g.dstBase && isClosed(dn) {
 				r.V("C09", "join-close-stops-base", "a failed attempt to create the %s join over a stopped destination shut down another base controller (#%d)", kind, i)
